@@ -50,8 +50,8 @@ theorem validFor_lookup (h : FamT c A B T q fs) (hs : SvcB T fs SB) (hB : Flat.f
     List.find?_cons, hadn', hadn'', hdecl, requiredGiven, List.any_cons, List.any_nil, Bool.or_false, Bool.or_true,
     Bool.and_self, Bool.and_true, Bool.true_and, validSels, List.isEmpty_cons]
   rw [hfdT, shapeOK_composite SB "Node" _ ND hND (by rw [hkN]; rfl)]
-  simp only [validSels, validSel, List.all_nil, fsB_ne_leaves hB, Bool.not_false, Bool.true_and, hTc, Bool.false_eq_true, ↓reduceIte, hTB,
-    hkT, isComposite, happ, hleaves, validSels, Bool.and_self]
+  simp only [validSel, List.all_nil, fsB_ne_leaves hB, Bool.not_false, hTc, Bool.false_eq_true, ↓reduceIte, hTB,
+    hkT, isComposite, happ, hleaves, Bool.and_self]
 
 /-- the follow-up lookup has exactly the `node` form -/
 theorem isNodeLookup_rqB (c : PCtx) (B T q : String) (bs : List FieldSpec) (vars : List (String × J)) :
